@@ -368,6 +368,25 @@ func init() {
 			c.do(fmt.Sprintf("conv.pair srt %s %d 0 %s %s", dst, r.intn(12), op, encBytes(b.Bytes())))
 			c.count("cli-interaction")
 		}
+		// a source whose metadata carries a frame rate the destination has no code for (TTML ttp:frameRate 24, 50, 60 to
+		// EBU STL, which knows 25 and 30): boundaries off the 40 ms grid, so that the two rates count frames differently
+		for _, fr := range []int{24, 50, 60, 30, 25} {
+			for k := 0; k < 2; k++ {
+				var b strings.Builder
+				fmt.Fprintf(&b, `<tt xmlns="http://www.w3.org/ns/ttml" xmlns:ttp="http://www.w3.org/ns/ttml#parameter" ttp:frameRate="%d"><body><div>`, fr)
+				t := r.rangeI(0, 50) * 20
+				for i := 0; i < 3; i++ {
+					e := t + 40 + r.rangeI(0, 200)*20
+					fmt.Fprintf(&b, `<p begin="%d.%03ds" end="%d.%03ds">%s</p>`, t/1000, t%1000, e/1000, e%1000, plainWords[r.intn(10)])
+					t = e + r.rangeI(0, 100)*20
+				}
+				b.WriteString(`</div></body></tt>`)
+				for _, dst := range []string{"stl", "srt"} {
+					c.do(fmt.Sprintf("conv.pair ttml %s %d 0 - %s", dst, r.intn(12), encBytes([]byte(b.String()))))
+					c.count("frame-rates")
+				}
+			}
+		}
 		// inheritance chains of styles (and a region hanging on one) through optimize, then every destination
 		for depth := 2; depth <= 5; depth++ {
 			var b bytes.Buffer
